@@ -1,11 +1,11 @@
-SPECIFICATION Spec
+SPECIFICATION SpecDump
 CONSTANTS
   MCCat <- CatNet
   MCSub <- SubNet
   RootClasses <- RootsNet
   FilterStrs <- FilterNet
   AssignSpecs <- AssignNet
-  MaxSteps = 1
+  MaxSteps = 2
   DirectCalls = TRUE
 CONSTRAINT Bound
 ACTION_CONSTRAINT Dump
